@@ -9,6 +9,7 @@ Feature switches (dict f):
   paragraphs    write a cell containing line breaks as several text:p (otherwise text:line-break)
   span_at / spans   split the text at that offset into a text:span ("head" or "tail")
   span_range / span_nested   wrap text[i:j] in a text:span (optionally with a nested span), literal text before and after
+  link          the element around text[i:j] of span_range is a hyperlink (text:a) instead of a text:span
   empty_as_p    write an empty cell as <table:table-cell><text:p/></table:table-cell>
   encoding      XML encoding of content.xml (UTF-8, UTF-16, ISO-8859-1)
   annotations   every non-empty cell that is not part of a run carries a comment (office:annotation with paragraphs of its own)
@@ -25,7 +26,8 @@ NAMESPACES = (
     'xmlns:style="urn:oasis:names:tc:opendocument:xmlns:style:1.0" '
     'xmlns:table="urn:oasis:names:tc:opendocument:xmlns:table:1.0" '
     'xmlns:text="urn:oasis:names:tc:opendocument:xmlns:text:1.0" '
-    'xmlns:dc="http://purl.org/dc/elements/1.1/"'
+    'xmlns:dc="http://purl.org/dc/elements/1.1/" '
+    'xmlns:xlink="http://www.w3.org/1999/xlink"'
 )
 ANNOTATION = ('<office:annotation office:name="__Annotation__%d"><dc:creator>reviewer</dc:creator><dc:date>2024-01-01T00:00:00</dc:date>'
               "<text:p>asked for by accounting</text:p><text:p>second line</text:p></office:annotation>")
@@ -77,6 +79,9 @@ def encode_cell_content(text, f):
         if f.get("span_nested") and j - i >= 2:
             middle = i + (j - i) // 2
             inner = "<text:span>%s</text:span>%s" % (encode_text(text[i:middle], f), encode_text(text[middle:j], f))
+        if f.get("link"):
+            # the inline element is a hyperlink, as an office suite stores a recognized address
+            return '<text:p>%s<text:a xlink:href="http://example.com/" xlink:type="simple">%s</text:a>%s</text:p>' % (encode_text(text[:i], f), inner, encode_text(text[j:], f))
         return "<text:p>%s<text:span>%s</text:span>%s</text:p>" % (encode_text(text[:i], f), inner, encode_text(text[j:], f))
     at = f.get("span_at")
     if at is not None and 0 < at < len(text) and text[at - 1] not in WHITESPACE and text[at] not in WHITESPACE:
